@@ -269,6 +269,147 @@ def _judge(p, cfg, devs, ex, info, uris, args_dict):
                     viol('second_open_closed_swarm', 'swarm no longer open after the refused second open_links')
 
 
+# ---------------------------------------------------------------------------------------------
+# histories on one Swarm object: several actions one after the other, and an action that itself runs a swarm-wide action
+# ---------------------------------------------------------------------------------------------
+def _args_for(form, uris, k):
+    if form == 'none':
+        return None
+    if form == 'lists':
+        return {u: ['%s-c%d' % (u, k), i] for i, u in enumerate(uris)}
+    return {u: [] if (i + k) % 2 else [i, k] for i, u in enumerate(uris)}
+
+
+def exec_c19_hist(cfg, devs):
+    from cflib.crazyflie.swarm import Swarm
+    p = Partial()
+    vsched.clear_traced_functions()
+    ex = cfh.Exec(devs, None, time_limit=50.0)
+    n = cfg['n']
+    uris = ['sim://%d' % (9 - i) for i in range(n)]
+    calls = [tuple(c) for c in cfg['calls']]              # (mode, args form, failing member indices)
+    nested = cfg.get('nested')                             # (inner mode, inner fails?, outer member 0 raises afterwards?)
+    rp = {'cfg': cfg, 'devs': list(devs)}
+    results = []
+
+    class Factory:
+        def construct(self, uri):
+            return _Member(uri, ex, fail_open=False)
+
+    def run_mode(swarm, mode, fn, ad):
+        if mode == 'sequential':
+            swarm.sequential(fn, ad)
+        elif mode == 'parallel':
+            swarm.parallel(fn, ad)
+        else:
+            swarm.parallel_safe(fn, ad)
+
+    def main():
+        swarm = Swarm(list(uris), factory=Factory())
+        if cfg.get('open_first'):
+            swarm.open_links()
+        for k, (mode, form, fail) in enumerate(calls):
+            def action(scf, *args, k=k, fail=fail):
+                ex.log('act', k, scf.uri, args)
+                ex.s.point('action')
+                if nested and k == 0 and scf.uri == uris[0]:
+                    imode, ifail, raise_after = nested
+
+                    def inner(scf2, *a2):
+                        ex.log('inner', scf2.uri, a2)
+                        if ifail and scf2.uri == uris[-1]:
+                            raise _Boom('inner ' + scf2.uri)
+                    try:
+                        run_mode(swarm, imode, inner, {u: ['in', i] for i, u in enumerate(uris)})
+                        ex.log('inner_returned')
+                    except Exception as e:  # noqa
+                        ex.log('inner_raised', type(e).__name__)
+                    if raise_after:
+                        raise _Boom('outer ' + scf.uri)
+                if uris.index(scf.uri) in fail:
+                    raise _Boom('action %d %s' % (k, scf.uri))
+            try:
+                run_mode(swarm, mode, action, _args_for(form, uris, k))
+                results.append(('returned',))
+            except Exception as e:  # noqa
+                results.append(('raised', type(e.__cause__).__name__ if e.__cause__ is not None else type(e).__name__,
+                                str(e.__cause__) if e.__cause__ is not None else str(e)))
+            ex.log('call_done', k)
+
+    ex.run(main)
+    ev = ex.events
+    s = ex.s
+    cname = cfg['name']
+
+    def viol(clause, what):
+        p.violation('swarm:history:%s' % clause, '%s devs=%r: %s; events %r' % (cname, devs, what, [e[1:] for e in ev][:30]), rp)
+    p.case(key=(cname, tuple(devs)), nontrivial=True, outcome=(s.status, tuple(r[0] for r in results)),
+           sample={'config': cname, 'results': [r[0] for r in results]} if hash(cname) % 53 == 0 else None)
+    if s.died:
+        viol('thread_died:%s' % s.died[0][1].split('(')[0], 'thread %s died with %s' % s.died[0][:2])
+    if s.status != 'ok' or len(results) != len(calls):
+        viol(s.status if s.status != 'ok' else 'incomplete', 'did not complete: %d of %d calls' % (len(results), len(calls)))
+        return p, ex.ch.ns, ex.ch.labels
+    for k, (mode, form, fail) in enumerate(calls):
+        ad = _args_for(form, uris, k)
+        ran = [e for e in ev if e[1] == 'act' and e[2] == k]
+        fails = set(fail) | ({0} if (nested and k == 0 and nested[2]) else set())
+        for ui, u in enumerate(uris):
+            mine = [e for e in ran if e[3] == u]
+            if mode == 'sequential' and fails and ui > min(fails):
+                continue
+            exp_args = tuple(ad[u]) if ad else ()
+            if len(mine) != 1:
+                viol('action_count_x%d:call%d' % (len(mine), k), 'call %d (%s): action ran %d times for %s' % (k, mode, len(mine), u))
+            elif tuple(mine[0][4]) != exp_args:
+                viol('wrong_arguments:call%d' % k, 'call %d (%s): action for %s received %r, its dictionary entry is %r' % (
+                    k, mode, u, mine[0][4], exp_args))
+        r = results[k]
+        should_raise = bool(fails) and mode != 'parallel'
+        if should_raise and r[0] != 'raised':
+            viol('error_not_raised:%s:call%d%s' % (mode, k, ':nested' if nested and k == 0 else ''),
+                 'call %d (%s): an action raised but the call returned normally' % (k, mode))
+        elif not should_raise and r[0] != 'returned':
+            viol('raised_without_error:%s:call%d' % (mode, k), 'call %d (%s) raised %r although none of its actions did' % (k, mode, r))
+        elif should_raise and r[1] == '_Boom' and not r[2].startswith(('action %d ' % k, 'outer ')):
+            viol('error_of_another_call:%s:call%d' % (mode, k), 'call %d (%s) reported %r' % (k, mode, r))
+    if nested:
+        inner = [e for e in ev if e[1] == 'inner']
+        for ui, u in enumerate(uris):
+            mine = [e for e in inner if e[2] == u]
+            if nested[0] == 'sequential' and nested[1] and False:
+                continue
+            if len(mine) != 1 or tuple(mine[0][3]) != ('in', ui):
+                viol('nested_action', 'inner %s action for %s: %r' % (nested[0], u, [m[2:] for m in mine]))
+        want = 'inner_raised' if (nested[1] and nested[0] != 'parallel') else 'inner_returned'
+        if not any(e[1] == want for e in ev):
+            viol('nested_result:%s' % nested[0], 'inner %s call with failing=%r: expected %s' % (nested[0], nested[1], want))
+    return p, ex.ch.ns, ex.ch.labels
+
+
+def configs_hist():
+    out = []
+    opts = [(m, a, f) for m in ('sequential', 'parallel', 'parallel_safe') for a in ('none', 'lists', 'mixed') for f in ((), (0,))]
+    for a in opts:
+        for b in opts:
+            out.append({'name': 'hist:%s/%s/%s>%s/%s/%s' % (a[0], a[1], ''.join(map(str, a[2])) or '-', b[0], b[1], ''.join(map(str, b[2])) or '-'),
+                        'n': 2, 'calls': [a, b], 'hist': True})
+    small = [(m, a, ()) for m in ('sequential', 'parallel', 'parallel_safe') for a in ('none', 'lists')]
+    for a in small:
+        for b in small:
+            for c in small:
+                out.append({'name': 'hist3:' + '>'.join('%s/%s' % (x[0], x[1]) for x in (a, b, c)), 'n': 2, 'calls': [a, b, c],
+                            'hist': True, 'open_first': True})
+    for omode in ('parallel_safe', 'parallel', 'sequential'):
+        for imode in ('parallel_safe', 'parallel', 'sequential'):
+            for ifail in (False, True):
+                for raise_after in (False, True):
+                    out.append({'name': 'nested:%s(%s%s)%s' % (omode, imode, ':inner_fails' if ifail else '', ':then_raises' if raise_after else ''),
+                                'n': 2, 'calls': [(omode, 'lists', ()), (omode, 'lists', ())], 'hist': True,
+                                'nested': (imode, ifail, raise_after)})
+    return out
+
+
 def configs(quick):
     out = []
     sizes = (1, 2, 3) if quick else (1, 2, 3, 4)
@@ -297,7 +438,7 @@ def run(ck):
     ck.rule = ('swarm sizes 1..3 (thorough 4) x every failing subset x {sequential, parallel, parallel_safe, open_links, '
                'open_links twice} x argument dictionaries {none, per-URI lists, mixed empty/non-empty}; thread interleavings '
                'with scheduling points at every line of the Swarm methods and inside the member operations: n<=2 up to 2 '
-               'deviations, n=3 up to 1 (thorough: one more each, and n=4 up to 1); non-trivial = at least one deviation')
+               'deviations, n=3 up to 1 (thorough: one more each, and n=4 up to 1); histories on one Swarm of 2: 324 pairs and 216 triples of actions (mode x arguments x failing member), 36 nested swarm-wide actions started from inside an action, up to 1 deviation; non-trivial = at least one deviation')
     ck.assume('members are instrumented stand-ins produced by the factory argument (the statement is about Swarm, not about '
               'SyncCrazyflie); an argument dictionary without an entry for a member is outside the statement')
     cs = configs(ck.quick)
@@ -308,14 +449,22 @@ def run(ck):
         if sel:
             tot['n%d_bound%d' % (n, b + extra)] = explore(ck, exec_c19, sel, b + extra, max_execs=3000000)
     ck.note('exploration', tot)
+    # histories on one object (default schedule and one deviation): pairs and triples of actions, nested swarm-wide actions
+    ck.note('histories', explore(ck, exec_c19_hist, configs_hist(), 1, max_execs=3000000))
     ck.exhaustive = True
 
 
 def replay(ck, data):
     cfh.setup()
     cfg = data['cfg']
-    cfg['fail'] = tuple(cfg['fail'])
-    p, ns, labels = exec_c19(cfg, tuple(tuple(d) for d in data['devs']))
+    if cfg.get('hist'):
+        cfg['calls'] = [(c[0], c[1], tuple(c[2])) for c in cfg['calls']]
+        if cfg.get('nested'):
+            cfg['nested'] = tuple(cfg['nested'])
+        p, ns, labels = exec_c19_hist(cfg, tuple(tuple(d) for d in data['devs']))
+    else:
+        cfg['fail'] = tuple(cfg['fail'])
+        p, ns, labels = exec_c19(cfg, tuple(tuple(d) for d in data['devs']))
     ck.merge(p)
     for v in p.violations:
         print(' ', v['sig'], '::', v['what'])
